@@ -29,6 +29,16 @@ def gen():
                             '    return step(%d, %s, %s, %s, on_clause, using, model_first)\n'
                             % (name, suffix, sig, pre or 'True', distinct, post, sh, vals['a'], vals['b'], vals['c']))
                 specs.append((name, sh, fa))
+        # statement frames (what the model is joined to, which model, how many models) x 2-slot shapes x atoms
+        f.write('from harness.c14lib import step_frame\n')
+        for fr in range(1, c14lib.NF):
+            for half in (0, 1):
+                name = 'fr_%d_%d' % (fr, half)
+                lo, hi = (0, na // 2) if half == 0 else (na // 2, na)
+                for suffix, post in (('', '_ == 0'), ('_reach', 'False')):
+                    f.write('\n\ndef %s%s(k: int, a: int, b: int, on_clause: bool, using: bool) -> int:\n    """\n    pre: 0 <= k < %d and %d <= a < %d and 0 <= b < %d and a != b\n    post: %s\n    """\n'
+                            '    return step_frame(%d, k, a, b, on_clause, using)\n' % (name, suffix, len(c14lib.FRAME_SHAPES), lo, hi, na, post, fr))
+                specs.append((name, ('frame', fr), None))
     return path, specs
 
 
@@ -36,6 +46,17 @@ def mk_replay(sh, fa=None):
     def replay(args):
         from harness import c14lib
         import re
+        if isinstance(sh, tuple):
+            fr = sh[1]
+            k, a, b = int(args['k']), int(args['a']), int(args['b'])
+            c = [x for x in range(c14lib.NA) if x not in (a, b)][0]
+            try:
+                pr, info = c14lib.leaf(c14lib.FRAME_SHAPES[k], a, b, c, bool(args['on_clause']), bool(args['using']), False, fr)
+            except Exception as e:  # noqa
+                pr, info = ['check crashed %r' % e], {}
+            pr = pr + ['undecided: ' + x for x in info.get('undecided', ())]
+            cls = re.sub(r"'[^']*'|\d+|\{.*?\}|\[.*?\]", '#', pr[0])[:60] if pr else ''
+            return bool(pr), dict(info, problems=pr[:4]), 'table-model-join:%s:%s' % (c14lib.FRAMES[fr]['name'], cls), '%s: %s' % (info.get('sql'), pr[0] if pr else '')
         a = fa if fa is not None else args.get('a', 0)
         b, c = args.get('b', -1), args.get('c', -2)
         # unused slots: any distinct atoms
@@ -58,10 +79,10 @@ def run(tier):
     run = Run('C14', tier)
     from harness import c14lib
     path, gspecs = gen()
-    run.bounds = {'where_shapes': [s[0] for s in c14lib.SHAPES], 'atoms': [a[0] for a in c14lib.ATOMS],
+    run.bounds = {'frames': [f_['name'] for f_ in c14lib.FRAMES], 'where_shapes': [s[0] for s in c14lib.SHAPES], 'atoms': [a[0] for a in c14lib.ATOMS],
                   'options': 'ON clause present/absent, USING present/absent, model written first/second'}
     run.functions = ['plan_query', 'PlanJoinTablesQuery.plan_join_tables/check_query_conditions/check_node_condition/process_table/process_predictor/join_condition_to_columns_map']
-    run.assumptions = ['one table joined with one non-timeseries model; WHERE = formula of depth <= 2 over 8 atom kinds (table comparison, table BETWEEN, model = const, model > const, column = column, function(column) = const); more tables/models are covered structurally by C09/C10',
+    run.assumptions = ['frame table-model: one table joined with one non-timeseries model, all 10 shapes x 3 atom slots x both join orders; 6 more frames (subselect as data, two tables, project model, versioned model, two models, LEFT JOIN) with the 6 two-slot shapes; WHERE = formula of depth <= 2 over 12 atom kinds (table comparison, table BETWEEN, model = const, model > const, column = column, function(column) = const); more tables/models are covered structurally by C09/C10',
                        'oracle: independent syntactic spec from the property text (top-level conjuncts of the written WHERE)',
                        'structure variables are finite-domain; CrossHair/z3 split the space, leaves run the real parser and planner']
     specs = [dict(fn=name, twin=name + '_reach', replay=mk_replay(sh, fa)) for name, sh, fa in gspecs]
@@ -74,7 +95,11 @@ def replay(path):
     r = json.load(open(path))
     print(json.dumps(r, indent=1))
     import re
-    m = re.match(r'tm_shape(\d+)(?:_a(\d+))?', r['replay']['harness'])
-    rep, info, key, what = mk_replay(int(m.group(1)), int(m.group(2)) if m.group(2) else None)(r['replay']['args'])
+    h = r['replay']['harness']
+    if h.startswith('fr_'):
+        rep, info, key, what = mk_replay(('frame', int(h.split('_')[1])))(r['replay']['args'])
+    else:
+        m = re.match(r'tm_shape(\d+)(?:_a(\d+))?', h)
+        rep, info, key, what = mk_replay(int(m.group(1)), int(m.group(2)) if m.group(2) else None)(r['replay']['args'])
     print('native replay now: reproduced=%s %s' % (rep, json.dumps(info, default=repr)))
     return 1 if rep else 0
